@@ -13,78 +13,78 @@ import (
 // constructors -> the sum struct (boxed), a function -> <Name>Request (bare arguments; the id is added
 // by the (*Client) method). The driver refuses to run if a declaration of the AST has no entry here.
 var goTypes = map[string]reflect.Type{
-	"tonNode.blockId": reflect.TypeOf(liteclient.TonNodeBlockIdC{}),
-	"tonNode.blockIdExt": reflect.TypeOf(liteclient.TonNodeBlockIdExtC{}),
-	"tonNode.zeroStateIdExt": reflect.TypeOf(liteclient.TonNodeZeroStateIdExtC{}),
-	"tonNode.shardPublicOverlayId": reflect.TypeOf(liteclient.TonNodeShardPublicOverlayIdC{}),
-	"liteServer.error": reflect.TypeOf(liteclient.LiteServerErrorC{}),
-	"liteServer.accountId": reflect.TypeOf(liteclient.LiteServerAccountIdC{}),
-	"liteServer.libraryEntry": reflect.TypeOf(liteclient.LiteServerLibraryEntryC{}),
-	"liteServer.masterchainInfo": reflect.TypeOf(liteclient.LiteServerMasterchainInfoC{}),
-	"liteServer.masterchainInfoExt": reflect.TypeOf(liteclient.LiteServerMasterchainInfoExtC{}),
-	"liteServer.currentTime": reflect.TypeOf(liteclient.LiteServerCurrentTimeC{}),
-	"liteServer.version": reflect.TypeOf(liteclient.LiteServerVersionC{}),
-	"liteServer.blockData": reflect.TypeOf(liteclient.LiteServerBlockDataC{}),
-	"liteServer.blockState": reflect.TypeOf(liteclient.LiteServerBlockStateC{}),
-	"liteServer.blockHeader": reflect.TypeOf(liteclient.LiteServerBlockHeaderC{}),
-	"liteServer.sendMsgStatus": reflect.TypeOf(liteclient.LiteServerSendMsgStatusC{}),
-	"liteServer.accountState": reflect.TypeOf(liteclient.LiteServerAccountStateC{}),
-	"liteServer.runMethodResult": reflect.TypeOf(liteclient.LiteServerRunMethodResultC{}),
-	"liteServer.shardInfo": reflect.TypeOf(liteclient.LiteServerShardInfoC{}),
-	"liteServer.allShardsInfo": reflect.TypeOf(liteclient.LiteServerAllShardsInfoC{}),
-	"liteServer.transactionInfo": reflect.TypeOf(liteclient.LiteServerTransactionInfoC{}),
-	"liteServer.transactionList": reflect.TypeOf(liteclient.LiteServerTransactionListC{}),
-	"liteServer.transactionId": reflect.TypeOf(liteclient.LiteServerTransactionIdC{}),
-	"liteServer.transactionId3": reflect.TypeOf(liteclient.LiteServerTransactionId3C{}),
-	"liteServer.blockTransactions": reflect.TypeOf(liteclient.LiteServerBlockTransactionsC{}),
-	"liteServer.blockTransactionsExt": reflect.TypeOf(liteclient.LiteServerBlockTransactionsExtC{}),
-	"liteServer.signature": reflect.TypeOf(liteclient.LiteServerSignatureC{}),
-	"liteServer.signatureSet": reflect.TypeOf(liteclient.LiteServerSignatureSetC{}),
-	"liteServer.partialBlockProof": reflect.TypeOf(liteclient.LiteServerPartialBlockProofC{}),
-	"liteServer.configInfo": reflect.TypeOf(liteclient.LiteServerConfigInfoC{}),
-	"liteServer.validatorStats": reflect.TypeOf(liteclient.LiteServerValidatorStatsC{}),
-	"liteServer.libraryResult": reflect.TypeOf(liteclient.LiteServerLibraryResultC{}),
-	"liteServer.libraryResultWithProof": reflect.TypeOf(liteclient.LiteServerLibraryResultWithProofC{}),
-	"liteServer.shardBlockLink": reflect.TypeOf(liteclient.LiteServerShardBlockLinkC{}),
-	"liteServer.shardBlockProof": reflect.TypeOf(liteclient.LiteServerShardBlockProofC{}),
-	"liteServer.lookupBlockResult": reflect.TypeOf(liteclient.LiteServerLookupBlockResultC{}),
-	"liteServer.outMsgQueueSize": reflect.TypeOf(liteclient.LiteServerOutMsgQueueSizeC{}),
-	"liteServer.outMsgQueueSizes": reflect.TypeOf(liteclient.LiteServerOutMsgQueueSizesC{}),
+	"tonNode.blockId":                     reflect.TypeOf(liteclient.TonNodeBlockIdC{}),
+	"tonNode.blockIdExt":                  reflect.TypeOf(liteclient.TonNodeBlockIdExtC{}),
+	"tonNode.zeroStateIdExt":              reflect.TypeOf(liteclient.TonNodeZeroStateIdExtC{}),
+	"tonNode.shardPublicOverlayId":        reflect.TypeOf(liteclient.TonNodeShardPublicOverlayIdC{}),
+	"liteServer.error":                    reflect.TypeOf(liteclient.LiteServerErrorC{}),
+	"liteServer.accountId":                reflect.TypeOf(liteclient.LiteServerAccountIdC{}),
+	"liteServer.libraryEntry":             reflect.TypeOf(liteclient.LiteServerLibraryEntryC{}),
+	"liteServer.masterchainInfo":          reflect.TypeOf(liteclient.LiteServerMasterchainInfoC{}),
+	"liteServer.masterchainInfoExt":       reflect.TypeOf(liteclient.LiteServerMasterchainInfoExtC{}),
+	"liteServer.currentTime":              reflect.TypeOf(liteclient.LiteServerCurrentTimeC{}),
+	"liteServer.version":                  reflect.TypeOf(liteclient.LiteServerVersionC{}),
+	"liteServer.blockData":                reflect.TypeOf(liteclient.LiteServerBlockDataC{}),
+	"liteServer.blockState":               reflect.TypeOf(liteclient.LiteServerBlockStateC{}),
+	"liteServer.blockHeader":              reflect.TypeOf(liteclient.LiteServerBlockHeaderC{}),
+	"liteServer.sendMsgStatus":            reflect.TypeOf(liteclient.LiteServerSendMsgStatusC{}),
+	"liteServer.accountState":             reflect.TypeOf(liteclient.LiteServerAccountStateC{}),
+	"liteServer.runMethodResult":          reflect.TypeOf(liteclient.LiteServerRunMethodResultC{}),
+	"liteServer.shardInfo":                reflect.TypeOf(liteclient.LiteServerShardInfoC{}),
+	"liteServer.allShardsInfo":            reflect.TypeOf(liteclient.LiteServerAllShardsInfoC{}),
+	"liteServer.transactionInfo":          reflect.TypeOf(liteclient.LiteServerTransactionInfoC{}),
+	"liteServer.transactionList":          reflect.TypeOf(liteclient.LiteServerTransactionListC{}),
+	"liteServer.transactionId":            reflect.TypeOf(liteclient.LiteServerTransactionIdC{}),
+	"liteServer.transactionId3":           reflect.TypeOf(liteclient.LiteServerTransactionId3C{}),
+	"liteServer.blockTransactions":        reflect.TypeOf(liteclient.LiteServerBlockTransactionsC{}),
+	"liteServer.blockTransactionsExt":     reflect.TypeOf(liteclient.LiteServerBlockTransactionsExtC{}),
+	"liteServer.signature":                reflect.TypeOf(liteclient.LiteServerSignatureC{}),
+	"liteServer.signatureSet":             reflect.TypeOf(liteclient.LiteServerSignatureSetC{}),
+	"liteServer.partialBlockProof":        reflect.TypeOf(liteclient.LiteServerPartialBlockProofC{}),
+	"liteServer.configInfo":               reflect.TypeOf(liteclient.LiteServerConfigInfoC{}),
+	"liteServer.validatorStats":           reflect.TypeOf(liteclient.LiteServerValidatorStatsC{}),
+	"liteServer.libraryResult":            reflect.TypeOf(liteclient.LiteServerLibraryResultC{}),
+	"liteServer.libraryResultWithProof":   reflect.TypeOf(liteclient.LiteServerLibraryResultWithProofC{}),
+	"liteServer.shardBlockLink":           reflect.TypeOf(liteclient.LiteServerShardBlockLinkC{}),
+	"liteServer.shardBlockProof":          reflect.TypeOf(liteclient.LiteServerShardBlockProofC{}),
+	"liteServer.lookupBlockResult":        reflect.TypeOf(liteclient.LiteServerLookupBlockResultC{}),
+	"liteServer.outMsgQueueSize":          reflect.TypeOf(liteclient.LiteServerOutMsgQueueSizeC{}),
+	"liteServer.outMsgQueueSizes":         reflect.TypeOf(liteclient.LiteServerOutMsgQueueSizesC{}),
 	"liteServer.accountDispatchQueueInfo": reflect.TypeOf(liteclient.LiteServerAccountDispatchQueueInfoC{}),
-	"liteServer.dispatchQueueInfo": reflect.TypeOf(liteclient.LiteServerDispatchQueueInfoC{}),
-	"liteProxy.requestRateLimit": reflect.TypeOf(liteclient.LiteProxyRequestRateLimitC{}),
-	"liteServer.debug.verbosity": reflect.TypeOf(liteclient.LiteServerDebugVerbosityC{}),
-	"adnl.Message": reflect.TypeOf(liteclient.AdnlMessage{}),
-	"liteServer.BlockLink": reflect.TypeOf(liteclient.LiteServerBlockLink{}),
-	"liteServer.getMasterchainInfo": reflect.TypeOf(liteclient.LiteServerGetMasterchainInfoRequest{}),
-	"liteServer.getMasterchainInfoExt": reflect.TypeOf(liteclient.LiteServerGetMasterchainInfoExtRequest{}),
-	"liteServer.getTime": reflect.TypeOf(liteclient.LiteServerGetTimeRequest{}),
-	"liteServer.getVersion": reflect.TypeOf(liteclient.LiteServerGetVersionRequest{}),
-	"liteServer.getBlock": reflect.TypeOf(liteclient.LiteServerGetBlockRequest{}),
-	"liteServer.getState": reflect.TypeOf(liteclient.LiteServerGetStateRequest{}),
-	"liteServer.getBlockHeader": reflect.TypeOf(liteclient.LiteServerGetBlockHeaderRequest{}),
-	"liteServer.sendMessage": reflect.TypeOf(liteclient.LiteServerSendMessageRequest{}),
-	"liteServer.getAccountState": reflect.TypeOf(liteclient.LiteServerGetAccountStateRequest{}),
-	"liteServer.getAccountStatePrunned": reflect.TypeOf(liteclient.LiteServerGetAccountStatePrunnedRequest{}),
-	"liteServer.runSmcMethod": reflect.TypeOf(liteclient.LiteServerRunSmcMethodRequest{}),
-	"liteServer.getShardInfo": reflect.TypeOf(liteclient.LiteServerGetShardInfoRequest{}),
-	"liteServer.getAllShardsInfo": reflect.TypeOf(liteclient.LiteServerGetAllShardsInfoRequest{}),
-	"liteServer.getOneTransaction": reflect.TypeOf(liteclient.LiteServerGetOneTransactionRequest{}),
-	"liteServer.getTransactions": reflect.TypeOf(liteclient.LiteServerGetTransactionsRequest{}),
-	"liteServer.lookupBlock": reflect.TypeOf(liteclient.LiteServerLookupBlockRequest{}),
-	"liteServer.lookupBlockWithProof": reflect.TypeOf(liteclient.LiteServerLookupBlockWithProofRequest{}),
-	"liteServer.listBlockTransactions": reflect.TypeOf(liteclient.LiteServerListBlockTransactionsRequest{}),
+	"liteServer.dispatchQueueInfo":        reflect.TypeOf(liteclient.LiteServerDispatchQueueInfoC{}),
+	"liteProxy.requestRateLimit":          reflect.TypeOf(liteclient.LiteProxyRequestRateLimitC{}),
+	"liteServer.debug.verbosity":          reflect.TypeOf(liteclient.LiteServerDebugVerbosityC{}),
+	"adnl.Message":                        reflect.TypeOf(liteclient.AdnlMessage{}),
+	"liteServer.BlockLink":                reflect.TypeOf(liteclient.LiteServerBlockLink{}),
+	"liteServer.getMasterchainInfo":       reflect.TypeOf(liteclient.LiteServerGetMasterchainInfoRequest{}),
+	"liteServer.getMasterchainInfoExt":    reflect.TypeOf(liteclient.LiteServerGetMasterchainInfoExtRequest{}),
+	"liteServer.getTime":                  reflect.TypeOf(liteclient.LiteServerGetTimeRequest{}),
+	"liteServer.getVersion":               reflect.TypeOf(liteclient.LiteServerGetVersionRequest{}),
+	"liteServer.getBlock":                 reflect.TypeOf(liteclient.LiteServerGetBlockRequest{}),
+	"liteServer.getState":                 reflect.TypeOf(liteclient.LiteServerGetStateRequest{}),
+	"liteServer.getBlockHeader":           reflect.TypeOf(liteclient.LiteServerGetBlockHeaderRequest{}),
+	"liteServer.sendMessage":              reflect.TypeOf(liteclient.LiteServerSendMessageRequest{}),
+	"liteServer.getAccountState":          reflect.TypeOf(liteclient.LiteServerGetAccountStateRequest{}),
+	"liteServer.getAccountStatePrunned":   reflect.TypeOf(liteclient.LiteServerGetAccountStatePrunnedRequest{}),
+	"liteServer.runSmcMethod":             reflect.TypeOf(liteclient.LiteServerRunSmcMethodRequest{}),
+	"liteServer.getShardInfo":             reflect.TypeOf(liteclient.LiteServerGetShardInfoRequest{}),
+	"liteServer.getAllShardsInfo":         reflect.TypeOf(liteclient.LiteServerGetAllShardsInfoRequest{}),
+	"liteServer.getOneTransaction":        reflect.TypeOf(liteclient.LiteServerGetOneTransactionRequest{}),
+	"liteServer.getTransactions":          reflect.TypeOf(liteclient.LiteServerGetTransactionsRequest{}),
+	"liteServer.lookupBlock":              reflect.TypeOf(liteclient.LiteServerLookupBlockRequest{}),
+	"liteServer.lookupBlockWithProof":     reflect.TypeOf(liteclient.LiteServerLookupBlockWithProofRequest{}),
+	"liteServer.listBlockTransactions":    reflect.TypeOf(liteclient.LiteServerListBlockTransactionsRequest{}),
 	"liteServer.listBlockTransactionsExt": reflect.TypeOf(liteclient.LiteServerListBlockTransactionsExtRequest{}),
-	"liteServer.getBlockProof": reflect.TypeOf(liteclient.LiteServerGetBlockProofRequest{}),
-	"liteServer.getConfigAll": reflect.TypeOf(liteclient.LiteServerGetConfigAllRequest{}),
-	"liteServer.getConfigParams": reflect.TypeOf(liteclient.LiteServerGetConfigParamsRequest{}),
-	"liteServer.getValidatorStats": reflect.TypeOf(liteclient.LiteServerGetValidatorStatsRequest{}),
-	"liteServer.getLibraries": reflect.TypeOf(liteclient.LiteServerGetLibrariesRequest{}),
-	"liteServer.getLibrariesWithProof": reflect.TypeOf(liteclient.LiteServerGetLibrariesWithProofRequest{}),
-	"liteServer.getShardBlockProof": reflect.TypeOf(liteclient.LiteServerGetShardBlockProofRequest{}),
-	"liteServer.getOutMsgQueueSizes": reflect.TypeOf(liteclient.LiteServerGetOutMsgQueueSizesRequest{}),
-	"liteServer.getDispatchQueueInfo": reflect.TypeOf(liteclient.LiteServerGetDispatchQueueInfoRequest{}),
-	"liteProxy.getRequestRateLimit": reflect.TypeOf(liteclient.LiteProxyGetRequestRateLimitRequest{}),
+	"liteServer.getBlockProof":            reflect.TypeOf(liteclient.LiteServerGetBlockProofRequest{}),
+	"liteServer.getConfigAll":             reflect.TypeOf(liteclient.LiteServerGetConfigAllRequest{}),
+	"liteServer.getConfigParams":          reflect.TypeOf(liteclient.LiteServerGetConfigParamsRequest{}),
+	"liteServer.getValidatorStats":        reflect.TypeOf(liteclient.LiteServerGetValidatorStatsRequest{}),
+	"liteServer.getLibraries":             reflect.TypeOf(liteclient.LiteServerGetLibrariesRequest{}),
+	"liteServer.getLibrariesWithProof":    reflect.TypeOf(liteclient.LiteServerGetLibrariesWithProofRequest{}),
+	"liteServer.getShardBlockProof":       reflect.TypeOf(liteclient.LiteServerGetShardBlockProofRequest{}),
+	"liteServer.getOutMsgQueueSizes":      reflect.TypeOf(liteclient.LiteServerGetOutMsgQueueSizesRequest{}),
+	"liteServer.getDispatchQueueInfo":     reflect.TypeOf(liteclient.LiteServerGetDispatchQueueInfoRequest{}),
+	"liteProxy.getRequestRateLimit":       reflect.TypeOf(liteclient.LiteProxyGetRequestRateLimitRequest{}),
 }
 
 // hand-written TL codecs: (TL type name as understood by TlSem, operator, Go type)
